@@ -70,9 +70,13 @@ impl Gen {
                         let mandatory = f == 3 || f == 4 || f == 6;
                         if (mandatory && rng.chance(4, 5)) || (!mandatory && rng.chance(1, 4)) { files.push(f); }
                     }
-                    es.push(json!({"name": codes(&name), "dir": tf(dir), "files": if dir { files } else { vec![] }}));
+                    let files = if dir { files } else { vec![] };
+                    // zero-length '+' files exist all the same; a name that is not UTF-8 on disk
+                    let empty: Vec<usize> = files.iter().copied().filter(|_| rng.chance(1, 6)).collect();
+                    es.push(json!({"name": codes(&name), "dir": tf(dir), "files": files, "empty": empty, "raw": tf(rng.chance(1, 12))}));
                 }
-                Some(("pkgdb".into(), json!({"entries": es})))
+                let root = match rng.below(12) { 0 => "file", 1 => "missing", _ => "dir" };
+                Some(("pkgdb".into(), json!({"root": root, "entries": if root == "dir" { es } else { vec![] }})))
             }
             "metahist" => {
                 let calls: Vec<Value> = (0..rng.range(0, 8)).map(|_| {
@@ -95,7 +99,8 @@ impl Gen {
                 let f = match rng.below(3) {
                     0 => rng.pick_str(&["+BUILD_INFO", "+BUILD_VERSION", "+COMMENT", "+CONTENTS", "+DEINSTALL", "+DESC", "+DISPLAY", "+INSTALL",
                                         "+INSTALLED_INFO", "+MTREE_DIRS", "+PRESERVE", "+REQUIRED_BY", "+SIZE_ALL", "+SIZE_PKG"]).to_string(),
-                    1 => rng.pick_str(&["+comment", "COMMENT", "+COMMENT ", "+SIZE", "+SIZE_PKGS", "", "+", "+DESCR", "+REQUIRED-BY"]).to_string(),
+                    1 => rng.pick_str(&["+comment", "COMMENT", "+COMMENT ", "+SIZE", "+SIZE_PKGS", "", "+", "+DESCR", "+REQUIRED-BY",
+                                        "./+DESC", "a-1.0/+CONTENTS", "+COMMENT/+DESC", "/+BUILD_INFO", "+INSTALL/", "+DISPLAY\n", "\u{feff}+DESC", "+desc"]).to_string(),
                     _ => summaries::text(rng),
                 };
                 Some(("metaname".into(), json!({"f": codes(&f)})))
